@@ -18,6 +18,13 @@ from .catalog import R, C, I, raw_rand, canon, raw_from_float
 PRECS_LIGHT = S.PRECS_LIGHT
 PRECS_HEAVY = S.PRECS_HEAVY
 PRECS_VHEAVY = [10, 15, 30, 53, 64, 100]
+PRECS_HP = [2500, 3000, 3500]          # thresholds named in DESIGN 2.4 (series / cache switches)
+
+
+def HP(rg, tmax=20):
+    """mark a cell as member of the high-precision stratum"""
+    rg.hp, rg.precs, rg.tmax = True, PRECS_HP, tmax
+    return rg
 
 
 def _prof_alarm(signum, frame):
@@ -434,7 +441,7 @@ def run(prop, table, shard, rec, n_cases, tol_exp=8, tmax=10.0, bits_choices=(53
     while i < n_cases and time.process_time() < c_end and time.time() < w_end:
         fname, rg = mine[i % len(mine)]
         precs = rg.precs or (PRECS_HEAVY if rg.heavy else PRECS_LIGHT)
-        if quick:
+        if quick and not getattr(rg, 'hp', False):        # hp: the small high-precision stratum (2500/3000/3500 bits) is not capped
             precs = [q for q in precs if q <= (64 if rg.heavy else 200)] or precs[:1]
         p = precs[(i // len(mine) + r.randrange(len(precs))) % len(precs)]
         bits = min(r.choice(bits_choices), max(p, 4)) if r.random() < 0.8 else r.choice([2 * p, p + 7])
